@@ -726,10 +726,13 @@ func visitAST(node *sitter.Node, sourceCode []byte, graph *CodeGraph, currentCon
 					param := childNode.NamedChild(j)
 					if param.Type() == "formal_parameter" {
 						// get type of argument and add to method arguments
-						paramType := param.Child(0).Content(sourceCode)
-						paramValue := param.Child(1).Content(sourceCode)
-						methodArgumentType = append(methodArgumentType, paramType)
-						methodArgumentValue = append(methodArgumentValue, paramValue)
+						paramTypeNode := param.ChildByFieldName("type")
+						paramNameNode := param.ChildByFieldName("name")
+						if paramTypeNode == nil || paramNameNode == nil {
+							continue
+						}
+						methodArgumentType = append(methodArgumentType, paramTypeNode.Content(sourceCode))
+						methodArgumentValue = append(methodArgumentValue, paramNameNode.Content(sourceCode))
 					}
 				}
 			}
